@@ -32,6 +32,7 @@ import Proofs.DataflowAlias
 import Proofs.ResolverForks
 import Proofs.ResolverStaticCheck
 import Proofs.ResolverStaticMapCheck
+import Proofs.ResolverStaticMapGCheck
 import Proofs.ResolverStaticExample
 
 namespace Props.C01
@@ -595,6 +596,65 @@ theorem den_map_literal (st : StructTable) (F : Nat) (insOf : String → List Pa
           (run c.callee (path ++ [c.id]) [(c.id, .i k)]
             (mkArgs st F (argVals st env (insOf c.callee) c) (some (.i k)))).2) :=
   evalCall_mapped st F insOf run path env c n hn hm hd hex h
+
+/--
+PARTIAL (the refinement, with every map call of a STAGE whose size is known after resolution).
+Generalises `resolver_refines_den_staticmap_partial`: the split sources may be array OR
+typed-map literals, written at the call OR handed down through pipeline inputs (`split
+self.xs` where an enclosing call binds `xs` to a literal, possibly through several pipeline
+boundaries, narrowed on the way).  The typing (`WellTypedG`) no longer speaks about sizes; that
+every map call INSTANCE of the call graph has a statically known, non-zero size on which all
+its split inputs agree is a decidable condition on the static phase itself (`staticProgramOk`:
+what the compiler's `KnownLength` / `unifyMapSources` decide), and den's index set is recovered
+from den's VALUE of the split source by inverting the narrowing.  In typed-map mode the
+call's outputs are the typed map key ↦ the node's outputs read in fork `key`, fork `key` receives
+the value at `key` of every split parameter.
+
+Still excluded: mapped pipelines, nested map calls, split sources of run-time size (`merge` nodes
+stay), a map call over the merged output of another map call, `disabled`.
+-/
+theorem resolver_refines_den_mapstatic_partial (P : Program) (nm : List String → String) (O : Oracle)
+    (ρ : Store) (hw : WellTypedG P) (hfix : NarrowFix P.table P.nfuel)
+    (hρ : ∀ n ∈ (staticProgram P nm).2, StoreAtNode nm O ρ n) (hok : staticProgramOk P nm = true) :
+    den P O = twoPhaseM P nm ρ :=
+  twoPhaseG_eq_den_F P hw P.nfuel hfix nm O ρ hρ hok
+
+/-- … with DECIDABLE hypotheses and the store built from the oracle and the call graph. -/
+theorem resolver_refines_den_mapstatic_checked (P : Program) (nm : List String → String) (O : Oracle)
+    (h1 : wellTypedGB P = true) (h2 : acyclicB P.table = true) (h3 : staticProgramOk P nm = true)
+    (h4 : ((staticProgram P nm).2.map fun n => nm n.path).Nodup) :
+    den P O = twoPhaseM P nm (storeOfNodes nm (staticProgram P nm).2 O) :=
+  twoPhaseG_eq_den_F P (wellTypedGB_sound P h1) P.nfuel (narrowFix_of_acyclicB P.table h2) nm O _
+    (storeOfNodes_ok nm _ O h4) h3
+
+/-- Narrowing can be inverted on shapes: a value whose narrowing at an array type is an array IS an
+array of that length (what recovers den's index set of a split source from the static literal). -/
+theorem narrow_array_shape (st : StructTable) (F : Nat) (hF : NarrowFix st F) (b : String) (m a : Nat)
+    (v : J) (ys : List J) (h : narrow st F ⟨b, m, a + 1⟩ v = .arr ys) :
+    ∃ xs, v = .arr xs ∧ xs.length = ys.length :=
+  narrow_arr_inv hF b m a v ys h
+
+/-- … and at a typed-map type: a typed map with the same keys -/
+theorem narrow_map_shape (st : StructTable) (F : Nat) (hF : NarrowFix st F) (b : String) (k : Nat)
+    (v : J) (L : List (String × J)) (h : narrow st F ⟨b, k + 1, 0⟩ v = .obj L) :
+    ∃ kvs, v = .obj kvs ∧ kvs.map (·.1) = L.map (·.1) :=
+  narrow_obj_inv hF b k v L h
+
+/-- non-vacuity: a pipeline called with array literals that it splits inside (`split self.xs`,
+`split self.ps` narrowed WIDE → PAIR on the way) and a map call over a typed-map literal pass
+all the checks … -/
+example : wellTypedGB exMapG = true ∧ acyclicB exMapG.table = true ∧ staticProgramOk exMapG exNm = true ∧
+    ((staticProgram exMapG exNm).2.map fun n => exNm n.path).Nodup := by decide
+
+/-- … 1 + 2 + 2 + 1 instances; fork "kb" of `W2` receives `x = 3` (GEN's output), fork 1 of the
+inner `WORK` the struct literal that came through the pipeline input -/
+example :
+    (twoPhaseM exMapG exNm exMapGStore).2.length = 6 ∧
+    ((twoPhaseM exMapG exNm exMapGStore).2.find? fun i => i.key == ⟨["TOP", "W2"], [("W2", .k "kb")]⟩).map
+      (fun i => (i.args.field "x").matches (.atom "3")) = some true ∧
+    ((twoPhaseM exMapG exNm exMapGStore).2.find? fun i => i.key == ⟨["TOP", "IN", "WORK"], [("WORK", .i 1)]⟩).map
+      (fun i => (i.args.field "p").matches (.obj [("a", .atom "2"), ("b", .atom "\"t\"")])) = some true := by
+  decide
 
 /-- non-vacuity: a map call of a stage over two array literals of length 3 (constants, a pipeline
 input, upstream outputs, a struct literal next to references that are narrowed WIDE → PAIR),
